@@ -128,16 +128,23 @@ def stage(prop, tier, seed, workdir, env, root, build, repo, **kw):
         pending = list(enumerate(cfgs))
         running = []
         results = {}
+        started = {}
         while pending or running:
             while pending and len(running) < maxpar:
                 k, (v, src, prog, mode, limit, traces) = pending.pop(0)
                 p = subprocess.Popen([exe, '-ver', v, '-src', str(src), '-prog', prog, '-mode', mode, '-limit', str(limit),
                                       '-traces', str(traces), '-seed', str(seed + k)], stdout=subprocess.PIPE, stderr=subprocess.STDOUT, text=True, env=env)
                 running.append((k, p))
+                started[k] = time.time()
             for k, p in list(running):
                 try:
                     out, _ = p.communicate(timeout=0.05)
                 except subprocess.TimeoutExpired:
+                    if time.time() - started[k] > (240 if tier == 'quick' else 1500):
+                        p.kill()
+                        out, _ = p.communicate()
+                        running.remove((k, p))
+                        results[k] = (-9, 'KILLED after the time budget (no result)\n' + (out or '')[-300:])
                     continue
                 running.remove((k, p))
                 results[k] = (p.returncode, out)
@@ -158,7 +165,7 @@ def stage(prop, tier, seed, workdir, env, root, build, repo, **kw):
                     m = re.search(r'runs=(\d+) bad=(\d+) longest=(\d+) exhaustive=(\w+)', line)
                     schedules += int(m.group(1)); bad += int(m.group(2)); longest = max(longest, int(m.group(3)))
                     exhaustive += (m.group(4) == 'true')
-                elif line.split(' ')[0] in ('DEADLOCK', 'WRONG', 'PANIC', 'UNLOCK', 'WAIT'):
+                elif line.split(' ')[0] in ('DEADLOCK', 'WRONG', 'PANIC', 'UNLOCK', 'WAIT', 'LIVELOCK'):
                     first_bad.append((line.split(' ')[0], '%s %s %s' % (v, src, prog), line[:2000]))
         # trace validation by the extracted acceptor
         cases = os.path.join(workdir, 'traces.txt')
